@@ -130,6 +130,11 @@ def corpus():
         one(["DCompound", [["DFloat"], pmx, ["DMap", [[["PInt", 1], S("one")], [S("k"), ["PNone"]]]]]], ["PInt", 1], S("k"), S("no"),
             ["PFloat", F(0.5)], ["PBool", True], ["PNone"], S("yest"), how=how)
         one(["DUnion", [["DMap", [[S("a"), ["PInt", 1]]]], ["DInt"]]], S("a"), ["PInt", 5], S("b"), how=how)
+        # a NESTED compound contributes its own _post_setattr (which never raises) to the outer one
+        one(["DCompound", [["DCompound", [["DMap", [[S("a"), ["PInt", 1]]]], ["DString", 2, 4, None]]], ["DInt"]]],
+            S("a"), S("abc"), ["PInt", 5], S("abcdef"), S("a"), how=how)
+        one(["DCompound", [["DInt"], ["DCompound", [["DFloat"], pmx]], ["DMap", [[S("k"), ["PNone"]]]]]],
+            S("ye"), S("k"), ["PFloat", F(0.5)], ["PInt", 5], S("zz"), S("no"), how=how)
     # the quiet routes x mapped traits: the shadow must follow the value (post_setattr runs with notifications off)
     m1 = ["DMap", [[S("a"), ["PInt", 1]], [["PInt", 1], ["PInt", 2]], [S("b"), S("abc")]]]
     pm = ["DPrefixMap", [[pv.W("yes"), ["PInt", 1]], [pv.W("no"), ["PInt", 0]], [pv.W("yesterday"), ["PInt", 2]]]]
